@@ -286,10 +286,25 @@ func (c *vHC) gen(r vh.R, op OperationType) vCallSpec {
 			amt = uint64(r.IntN(300))
 		}
 		l := uint64(r.IntN(60))
-		if r.IntN(5) == 0 {
+		switch r.IntN(10) {
+		case 0, 1:
 			l = uint64(c.gas) - min(uint64(c.gas), uint64(8+r.IntN(6))) // around the remaining gas
+		case 2:
+			l = r.U64() // boundary pool: 2^31, 2^32, 2^63-1, 2^63, 2^64-1 … (a 64-bit register value)
+		case 3:
+			l = 1<<63 + uint64(r.IntN(4000)) - 2000 // around the sign bit of a 64-bit gas counter
 		}
 		w[7], w[8], w[9], w[10] = c.anyService(r), amt, l, o
+		if c.transferBias && r.IntN(5) != 0 {
+			w[8] = uint64(r.IntN(20))
+			w[7] = uint64(c.caller)
+			if len(c.others) > 0 && r.Bool() {
+				w[7] = uint64(c.others[r.IntN(len(c.others))])
+			}
+			if r.IntN(3) == 0 {
+				w[9] = max(l, uint64(c.add.ResultContextX.PartialState.ServiceAccounts[types.ServiceID(w[7])].ServiceInfo.MinMemoGas))
+			}
+		}
 		sp.req = []vRange{{o, 128}}
 	case EjectOp:
 		o, _ := c.hashAddr(r)
@@ -355,7 +370,7 @@ var vSeqOps = []OperationType{GasOp, FetchOp, LookupOp, ReadOp, WriteOp, WriteOp
 	InvokeOp, ExpungeOp, BlessOp, AssignOp, DesignateOp, CheckpointOp, NewOp, NewOp, UpgradeOp, TransferOp, TransferOp, EjectOp, QueryOp, SolicitOp, SolicitOp,
 	ForgetOp, ForgetOp, YieldOp, ProvideOp, LogOp}
 
-type vMonitors struct{ frame, ledger, footprint, charge bool }
+type vMonitors struct{ frame, ledger, footprint, charge, transferBias bool }
 
 func bigU(x types.U64) *big.Int { return vBig().SetUint64(uint64(x)) }
 
@@ -406,9 +421,13 @@ func (c *vHC) derived(id types.ServiceID) (uint64, *big.Int) {
 func vRunHostSequence(h *vh.H, stratum string, ci int, r vh.R, mon vMonitors) {
 	types.SetTinyMode()
 	c := vNewHC(r)
+	c.transferBias = mon.transferBias
 	n := 1 + r.IntN(40)
 	for step := 0; step < n; step++ {
 		op := vSeqOps[r.IntN(len(vSeqOps))]
+		if c.transferBias && r.Bool() {
+			op = TransferOp
+		}
 		if r.IntN(40) == 0 {
 			c.gas = Gas(r.IntN(12)) // too little gas for the charge
 		}
@@ -460,10 +479,14 @@ func vRunHostSequence(h *vh.H, stratum string, ci int, r vh.R, mon vMonitors) {
 				}
 				return
 			case op == TransferOp && kind == "ok":
-				if o.gas0-o.gas1 != Gas(10+o.regs0[9]) {
-					viol("charge: successful transfer must cost 10 + l", fmt.Sprintf("cost %d, l=%d", o.gas0-o.gas1, o.regs0[9]))
+				// exact unsigned arithmetic: l is a 64-bit register value and may exceed every gas counter
+				if l := o.regs0[9]; l > uint64(o.gas0-10) {
+					viol("charge: transfer succeeded although its gas limit l exceeds the gas left after the base charge", fmt.Sprintf("gas %d, l=%d", o.gas0, l))
+				} else if o.gas1 < 0 || uint64(o.gas0-10)-l != uint64(o.gas1) {
+					viol("charge: successful transfer must cost 10 + l", fmt.Sprintf("gas %d -> %d, l=%d", o.gas0, o.gas1, l))
 				}
 			case op == TransferOp && kind == "oog":
+				h.Inc("transfer_calls_oog")
 				// the transfer's gas limit exceeds what is left after the base charge
 				if uint64(o.gas0-10) >= o.regs0[9] {
 					viol("charge: transfer out-of-gas although gas >= 10 + l", fmt.Sprintf("gas %d l=%d", o.gas0, o.regs0[9]))
@@ -475,6 +498,12 @@ func vRunHostSequence(h *vh.H, stratum string, ci int, r vh.R, mon vMonitors) {
 			default:
 				if o.gas0-o.gas1 != 10 {
 					viol("charge: host call must cost exactly 10", fmt.Sprintf("cost %d", o.gas0-o.gas1))
+				}
+			}
+			if op == TransferOp {
+				h.Inc("transfer_calls_" + kind)
+				if o.regs0[9] >= 1<<63 {
+					h.Inc("transfer_calls_with_l_ge_2^63")
 				}
 			}
 		}
@@ -627,7 +656,10 @@ func vRunHostSequence(h *vh.H, stratum string, ci int, r vh.R, mon vMonitors) {
 			if (op == WriteOp || op == SolicitOp) && kind == "ok" {
 				a := c.add.ResultContextX.PartialState.ServiceAccounts[c.caller]
 				thr := vThreshold(uint64(a.ServiceInfo.Items), bigU(a.ServiceInfo.Bytes), uint64(a.ServiceInfo.DepositOffset))
-				if thr.Cmp(bigU(a.ServiceInfo.Balance)) > 0 && !(op == WriteOp && o.regs0[10] == 0) {
+				thr0 := vThreshold(uint64(callerBefore.ServiceInfo.Items), bigU(callerBefore.ServiceInfo.Bytes), uint64(callerBefore.ServiceInfo.DepositOffset))
+				// judged only when the mutation RAISED the threshold (the statement's wording): an account that is already
+				// below its threshold may still re-solicit or overwrite with an equal/smaller footprint
+				if thr.Cmp(bigU(a.ServiceInfo.Balance)) > 0 && thr.Cmp(thr0) > 0 && !(op == WriteOp && o.regs0[10] == 0) {
 					viol("footprint: mutation accepted although the new threshold exceeds the balance", fmt.Sprintf("threshold %s balance %d", thr, a.ServiceInfo.Balance))
 				}
 				h.Inc("footprint_mutations_ok")
